@@ -7,7 +7,7 @@ package shell
 // Histories (bounded-exhaustive, sequential): a real Executor (enabled, whitelist [sleep], bcrypt
 // password, MaxSessions in {1,2}) behind a real Handler with a recording DataWriter. Every history
 // of up to L events over
-//   VS  valid streaming request            (HandleStreamOpen + encrypted META, `sleep 30`)
+//   VS  valid streaming request            (HandleStreamOpen + encrypted META, `sleep 3000`)
 //   VI  valid interactive request          (interactive stream + META with a tty block)
 //   RIp rejected interactive request: wrong password
 //   RIc rejected interactive request: command not whitelisted
@@ -15,7 +15,7 @@ package shell
 //   RS  rejected streaming request: wrong password
 //   CL  close of the oldest running session (HandleStreamClose)
 // (quick: L = 3 with the third event from {VS, VI, RIp, RIc, CL}; thorough: L = 4, full alphabet)
-// is driven through the real code; accepted requests start real `sleep 30` processes, which are
+// is driven through the real code; accepted requests start real `sleep 3000` processes, which are
 // killed by CL or by Handler.Close at the end of the history (the harness waits only on the
 // processes' done channels, with a safety timeout that is a harness error, never a verdict).
 //
@@ -71,6 +71,7 @@ type c25Live struct {
 	id   uint64
 	ss   *ShellStream
 	done <-chan struct{}
+	kind string
 }
 
 func c25Done(ss *ShellStream) <-chan struct{} {
@@ -138,7 +139,7 @@ func c25HandlerRun(r *vmc.Result, c c25HandlerCase, violate func(fp, what string
 		nextID++
 		id := nextID
 		interactive := kind == "VI" || strings.HasPrefix(kind, "RI")
-		meta := &ShellMeta{Command: "sleep", Args: []string{"30"}, Password: c25Password}
+		meta := &ShellMeta{Command: "sleep", Args: []string{"3000"}, Password: c25Password}
 		if interactive {
 			meta.TTY = &TTYSettings{Rows: 24, Cols: 80}
 		}
@@ -191,7 +192,7 @@ func c25HandlerRun(r *vmc.Result, c c25HandlerCase, violate func(fp, what string
 				nStream++
 				c25Settle(nStream)
 			}
-			live = append(live, c25Live{id, ss, done})
+			live = append(live, c25Live{id, ss, done, kind})
 			all = append(all, done)
 			granted++
 			out = append(out, kind+"+")
@@ -231,14 +232,18 @@ func c25HandlerRun(r *vmc.Result, c c25HandlerCase, violate func(fp, what string
 			request(ev)
 		}
 		running := 0
+		var still []c25Live
 		for _, l := range live {
 			if !c25Exited(l.done) {
 				running++
+				still = append(still, l)
+			} else if l.kind == "VS" || l.kind == "VI" {
+				r.HarnessError("C25 handler: %s: a `sleep 3000` process exited by itself", c)
 			}
+			// a process started for a request that had to be refused (already reported) may exit
+			// at once (its arguments are not a duration): it is no longer running, not a harness fault
 		}
-		if running != len(live) {
-			r.HarnessError("C25 handler: %s: a `sleep 30` process exited by itself", c)
-		}
+		live = still
 		site := fmt.Sprintf("after-%s", ev)
 		if running > c.Max {
 			violate("C25/handler/running-exceeds-max/"+site, fmt.Sprintf("%s: after event %d (%s) %d shell processes are running, max_sessions = %d (outcomes %v)", c, i+1, ev, running, c.Max, out))
@@ -263,8 +268,8 @@ func c25HandlerRun(r *vmc.Result, c c25HandlerCase, violate func(fp, what string
 
 // c25Handler is the handler-level half of TestVerif_C25 (called from harness_test.go).
 func c25Handler(r *vmc.Result) {
-	r.Rule += " || handler histories: every sequence of up to L events over {valid stream request, valid interactive request, interactive request rejected for password / whitelist / metacharacter, stream request rejected for password, close of the oldest running session} x MaxSessions in {1,2} through the real Handler (real `sleep 30` processes); non-trivial = histories in which a request was granted and a later valid one was refused at the limit (distinct by history)"
-	r.Assume("handler half: requests are delivered one after the other (HandleStreamOpen/HandleStreamData/HandleStreamClose are synchronous up to process start); accepted requests run real `sleep 30` processes that are killed by the close event or Handler.Close; concurrency of the slot counter itself is the schedule half")
+	r.Rule += " || handler histories: every sequence of up to L events over {valid stream request, valid interactive request, interactive request rejected for password / whitelist / metacharacter, stream request rejected for password, close of the oldest running session} x MaxSessions in {1,2} through the real Handler (real `sleep 3000` processes); non-trivial = histories in which a request was granted and a later valid one was refused at the limit (distinct by history)"
+	r.Assume("handler half: requests are delivered one after the other (HandleStreamOpen/HandleStreamData/HandleStreamClose are synchronous up to process start); accepted requests run real `sleep 3000` processes that are killed by the close event or Handler.Close; concurrency of the slot counter itself is the schedule half")
 	var rp c25HandlerCase
 	if r.ReplayInto(&rp) {
 		if !rp.Handler {
